@@ -124,12 +124,18 @@ theorem par_no_panic (cfg : Cfg) : ∀ (f : Nat) (st : State) (p : Bytes), Stash
         simp only [h1, h2]
         exact h3
       · subst he
-        have : parBody cfg (parseAndRemove cfg f) stc p = finalChunk cfg { st2 with parsedSig := sig } := by
-          unfold parBody; rw [hh]; rfl
+        by_cases hsig : sig = []
+        · subst hsig
+          rw [parBody_nosig cfg _ stc st2 p 0 off hh]; simp
+        have : parBody cfg (parseAndRemove cfg f) stc p = finalChunk cfg { st2 with parsedSig := sig } :=
+          parBody_final cfg _ stc st2 p sig off hh hsig
         rw [this]
         exact ⟨finalChunk_not_panic cfg _, fun h => absurd h (finalChunk_not_nil cfg _)⟩
       · subst he
-        rw [parBody_chunk cfg _ stc st2 p sig size off hh (by omega)]
+        by_cases hsig : sig = []
+        · subst hsig
+          rw [parBody_nosig cfg _ stc st2 p size off hh]; simp
+        rw [parBody_chunk cfg _ stc st2 p sig size off hh hsig (by omega)]
         unfold cont
         have hpan : ¬ (off < 0 ∨ (p.length : Int) < off) := by omega
         have hsn : ¬ (size < 0) := by omega
